@@ -407,10 +407,14 @@ def thorough_extras(prop, sel, repo, known):
                             if not any(k["obligation"] == o2["label"] and k["property"] == prop for k in known):
                                 red.append(o2["label"])
             caught = len(red) > 0
-            rec = {"seed": os.path.basename(sd), "summary": m.get("summary", "")[:200], "expected": m.get("expected"), "caught": caught, "red_obligations": sorted(set(red))[:6]}
+            undec = sorted(n for (n, st) in status if st == "undecided")
+            rec = {"seed": os.path.basename(sd), "summary": m.get("summary", "")[:200], "expected": m.get("expected"), "caught": caught, "red_obligations": sorted(set(red))[:6],
+                   "undecided_units": undec, "outcome": "caught" if caught else ("undecided" if undec else "missed")}
             out["seeded"].append(rec)
             if m.get("expected") == "caught" and not caught:
                 out["problems"].append(f"seeded change {os.path.basename(sd)} is no longer caught (machinery too weak)")
+            if m.get("expected") == "undecided" and not caught and not undec:
+                out["problems"].append(f"seeded change {os.path.basename(sd)} now verifies silently (expected UNDECIDED)")
         finally:
             shutil.rmtree(d, ignore_errors=True)
     # ---- (2) recorded findings still manifest on the real code
